@@ -16,6 +16,7 @@ import (
 )
 
 var debugMerge = os.Getenv("SYMGO_DEBUG_MERGE") != ""
+var envNoMerge = os.Getenv("SYMGO_NOMERGE") != ""
 
 type specAbort struct {
 	why        string
@@ -37,6 +38,7 @@ type specLeaf struct {
 	env    map[ssa.Value]Value
 	ret    Value
 	isRet  bool
+	defs   []ssa.Value // SSA values (re)defined on this leaf's path, in this frame
 }
 
 type mergeInfo struct {
@@ -161,7 +163,7 @@ func (it *Interp) ipdomOf(b *ssa.BasicBlock) *ssa.BasicBlock {
 
 // tryMerge attempts if-conversion at the If terminating fr.block.
 func (it *Interp) tryMerge(fr *frame, ifi *ssa.If, cond *Term) (out mergeOutcome) {
-	if it.noMerge[ifi] || it.disableMerge {
+	if it.noMerge[ifi] || it.disableMerge || envNoMerge {
 		return mergeNone
 	}
 	B := fr.block
@@ -212,7 +214,7 @@ func (it *Interp) tryMerge(fr *frame, ifi *ssa.If, cond *Term) (out mergeOutcome
 			c = mkNot(cond)
 		}
 		env := cloneEnv(savedEnv)
-		it.specExplore(fr, B.Succs[k], B, env, c, J, budget, &leaves, map[*ssa.BasicBlock]bool{B: true})
+		it.specExplore(fr, B.Succs[k], B, env, c, J, budget, &leaves, map[*ssa.BasicBlock]bool{B: true}, nil)
 	}
 	fr.env = savedEnv
 	fr.block, fr.prevBlock = savedBlock, savedPrev
@@ -291,22 +293,29 @@ func (it *Interp) tryMerge(fr *frame, ifi *ssa.If, cond *Term) (out mergeOutcome
 		}
 		T := g.target
 		newEnv := cloneEnv(savedEnv)
-		// values defined inside the region: keep those every leaf of the group agrees on
-		for k, v := range g.leaves[0].env {
-			if _, had := savedEnv[k]; had {
-				continue
-			}
+		// values (re)defined inside the region on every leaf of the group
+		for _, k := range g.leaves[0].defs {
 			var col []Value
 			all := true
 			for _, l := range g.leaves {
+				found := false
+				for _, d := range l.defs {
+					if d == k {
+						found = true
+						break
+					}
+				}
 				lv, ok := l.env[k]
-				if !ok {
+				if !found || !ok {
 					all = false
 					break
 				}
 				col = append(col, lv)
 			}
 			if !all {
+				// not defined on every path to this exit: by SSA dominance it cannot be
+				// used from here without being redefined first
+				delete(newEnv, k)
 				continue
 			}
 			same := true
@@ -316,9 +325,11 @@ func (it *Interp) tryMerge(fr *frame, ifi *ssa.If, cond *Term) (out mergeOutcome
 				}
 			}
 			if same {
-				newEnv[k] = v
+				newEnv[k] = col[0]
 			} else if usedOutside(k, leaves) {
 				newEnv[k] = it.mergeValues(conds, col)
+			} else {
+				delete(newEnv, k)
 			}
 		}
 		for _, ins := range T.Instrs {
@@ -358,6 +369,9 @@ func (it *Interp) tryMerge(fr *frame, ifi *ssa.If, cond *Term) (out mergeOutcome
 		it.specDepth++
 	}
 	it.Merges++
+	if debugMerge {
+		fmt.Fprintf(os.Stderr, "merge ok at %s block %d: leaves=%d groups=%d chosen=%d\n", ifi.Parent(), ifi.Block().Index, len(leaves), len(groups), gi)
+	}
 	g := groups[gi]
 	if g.target == nil {
 		fr.result = preps[gi].result
@@ -527,13 +541,13 @@ func (it *Interp) mergeValues(conds []*Term, vals []Value) Value {
 }
 
 // specExplore runs blocks speculatively from b until the join J or a return.
-func (it *Interp) specExplore(fr *frame, b, prev *ssa.BasicBlock, env map[ssa.Value]Value, cond *Term, J *ssa.BasicBlock, budget *specBudget, leaves *[]specLeaf, onPath map[*ssa.BasicBlock]bool) {
+func (it *Interp) specExplore(fr *frame, b, prev *ssa.BasicBlock, env map[ssa.Value]Value, cond *Term, J *ssa.BasicBlock, budget *specBudget, leaves *[]specLeaf, onPath map[*ssa.BasicBlock]bool, defs []ssa.Value) {
 	for {
 		if (J != nil && b == J) || onPath[b] || it.mergeInfoOf(b.Parent()).headers[b] || !it.condPure(b) {
 			if budget.leaves--; budget.leaves < 0 {
 				it.specAbort("too many leaves", true)
 			}
-			*leaves = append(*leaves, specLeaf{cond: cond, prev: prev, target: b, env: env})
+			*leaves = append(*leaves, specLeaf{cond: cond, prev: prev, target: b, env: env, defs: defs})
 			return
 		}
 		onPath[b] = true
@@ -541,7 +555,17 @@ func (it *Interp) specExplore(fr *frame, b, prev *ssa.BasicBlock, env map[ssa.Va
 		fr.env = env
 		fr.block, fr.prevBlock = b, prev
 		nonPhis := executePhis(fr)
+		for _, ins := range b.Instrs {
+			if phi, ok := ins.(*ssa.Phi); ok {
+				defs = append(defs, phi)
+			} else {
+				break
+			}
+		}
 		for _, instr := range nonPhis {
+			if v, ok := instr.(ssa.Value); ok {
+				defs = append(defs, v)
+			}
 			if budget.instrs--; budget.instrs < 0 {
 				it.specAbort("region too large", true)
 			}
@@ -569,7 +593,7 @@ func (it *Interp) specExplore(fr *frame, b, prev *ssa.BasicBlock, env map[ssa.Va
 					if k == 1 {
 						ck = mkNot(c)
 					}
-					it.specExplore(fr, b.Succs[k], b, cloneEnv(env), mkAnd(cond, ck), J, budget, leaves, onPath)
+					it.specExplore(fr, b.Succs[k], b, cloneEnv(env), mkAnd(cond, ck), J, budget, leaves, onPath, append([]ssa.Value{}, defs...))
 				}
 				return
 			case *ssa.Jump:
@@ -591,7 +615,7 @@ func (it *Interp) specExplore(fr *frame, b, prev *ssa.BasicBlock, env map[ssa.Va
 					}
 					res = t
 				}
-				*leaves = append(*leaves, specLeaf{cond: cond, ret: res, isRet: true, env: env})
+				*leaves = append(*leaves, specLeaf{cond: cond, ret: res, isRet: true, env: env, defs: defs})
 				return
 			case *ssa.Store, *ssa.MapUpdate, *ssa.Send, *ssa.Go, *ssa.Defer, *ssa.RunDefers, *ssa.Panic, *ssa.Select, *ssa.Alloc, *ssa.MakeChan, *ssa.Next, *ssa.Range:
 				it.specAbort("impure instruction", true)
